@@ -254,6 +254,8 @@ func applyModelDefect(c *SSOCase, d Defect, host string) {
 		conds().NotBefore = d.Param
 	case "noa-abs":
 		conds().NotOnOrAfter = d.Param
+	case "misnamespaced-child":
+		conds().NotOnOrAfter = "@now-3600"
 	case "nb-garbage":
 		conds().NotBefore = "@now-60/0/" + d.Param
 	case "noa-garbage":
